@@ -34,37 +34,34 @@ Theorem C13_bytes_in :
     end.
 Proof. exact bytes_in_step. Qed.
 
-(* WebSocket adapter, REFUTED in general (D15): two messages in one read are copied over each other and both lengths
-   reported; a read can report more bytes than the buffer holds; a message larger than the buffer restarts from its
-   first byte; a send that queued the frame and then hit would-block is sent again by the driver (D15b) *)
-Theorem C13_ws_reassembly_refuted :
-  (read_all false 3 w_init [RMsg (MBinary [1; 2; 3]); RMsg (MBinary [4; 5])] 8 = Some [4; 5; 3; 238; 238]
-   /\ stream_of [RMsg (MBinary [1; 2; 3]); RMsg (MBinary [4; 5])] = [1; 2; 3; 4; 5]) /\
-  ((let '(_, _, buf, r) := ws_read false w_init [RMsg (MBinary [1; 2; 3]); RMsg (MBinary [4; 5; 6])] (repeat 238 4) in
-    (len buf, r)) = (4, ROk 6)
-   /\ read_all false 3 w_init [RMsg (MBinary [1; 2; 3]); RMsg (MBinary [4; 5; 6])] 4 = None) /\
-  read_all false 4 w_init [RMsg (MBinary [1; 2; 3; 4; 5; 6])] 4 = Some [1; 2; 3; 4; 1; 2].
-Proof.
-  split; [exact refuted_two_messages_one_read|]. split; [exact refuted_more_than_buffer|exact refuted_message_larger_than_buffer].
-Qed.
+(* WebSocket adapter (as repaired by 73a05c7; D15): for EVERY list of messages — binary / text / control, of any size
+   relative to the buffer, several per read —, EVERY buffer size and EVERY arrival pattern (the transport may report
+   would-block between any two messages; transport failures excluded), the bytes returned by successive reads are the
+   concatenation of the data payloads, in order ... *)
+Theorem C13_ws_reassembly : forall size sock rounds,
+  0 < size -> no_err sock = true -> (length (stream_of sock) + length sock <= rounds)%nat ->
+  read_all rounds w_init sock size = Some (stream_of sock).
+Proof. exact ws_reassembly. Qed.
 
+(* ... and no read reports more than the buffer holds, in every state successive reads can reach *)
+Theorem C13_ws_read_bounded : forall size w sock,
+  0 < size -> w_final w = false -> no_err sock = true ->
+  let '(w', sock', data, res) := ws_read w sock size in
+  len data <= size /\ res = (if 0 <? len data then ROk (len data) else RErrWouldBlock) /\
+  w_final w' = false /\ no_err sock' = true.
+Proof. exact ws_read_bounded. Qed.
+
+(* write side, REFUTED (D15b, known finding): a send that queued the frame and then hit would-block is sent again *)
 Theorem C13_ws_write_refuted :
   let '(o, done) := drive_batch out_init [9; 8; 7] [TBlock; TOk] in
   done = true /\ o_wire o = [[9; 8; 7]; [9; 8; 7]].
 Proof. exact refuted_write_duplicated. Qed.
 
-(* ... and holds for the code as written exactly outside that class: for every list of messages that arrive one per read
-   and are each shorter than the buffer (every buffer size), successive reads return the concatenation of the payloads *)
-Theorem C13_ws_reassembly : forall size ds,
-  Forall (fun d => 0 < len d /\ len d < size) ds ->
-  read_all false (length ds) w_init (paced ds) size = Some (stream_of (paced ds)).
-Proof. exact ws_reassembly_paced. Qed.
-
-Theorem C13_ws_read_bounded : forall size d r,
-  0 < len d -> len d < size ->
-  let '(_, _, buf, res) := ws_read false w_init (RMsg (MBinary d) :: RWouldBlock :: r) (repeat 238 (N.to_nat size)) in
-  res = ROk (len d) /\ len d <= len buf.
-Proof. exact ws_read_bounded_paced. Qed.
+(* ... outside that class (no would-block answer to a send) every batch reaches the wire exactly once *)
+Theorem C13_ws_write : forall o batch results,
+  results <> [] -> ~ known_d15b results ->
+  drive_batch o batch results = (mkOut [] (o_wire o ++ o_queue o ++ [batch]), true).
+Proof. exact drive_batch_ok. Qed.
 
 (* tokio: in EVERY interleaving of submit / loop takes an operation / engine completes / close / abnormal loop exit /
    receiver dropped, an operation submitted once is accounted for exactly once, nothing is lost, and once the loop has
@@ -75,11 +72,11 @@ Theorem C13_result_exactly_once : forall evs id,
   (r_alive (rrun false evs) = false -> results_of id (rrun false evs) = 1%nat).
 Proof. exact result_exactly_once_tokio. Qed.
 
-(* threaded: the same while the loop runs ... *)
-Theorem C13_result_exactly_once_threaded_running : forall evs id,
-  loop_exits evs = false -> cnt id (submitted evs) = 1%nat ->
+(* threaded: the same outside the known defect class D16 (histories in which the loop exits) ... *)
+Theorem C13_result_exactly_once_threaded : forall evs id,
+  ~ known_d16 evs -> cnt id (submitted evs) = 1%nat ->
   accounted id (rrun true evs) = 1%nat /\ r_lost (rrun true evs) = [].
-Proof. exact result_exactly_once_threaded_running. Qed.
+Proof. exact result_exactly_once_threaded_not_known. Qed.
 
 (* ... REFUTED once its loop exits (D16): SyncResultSender has no Drop *)
 Theorem C13_result_exactly_once_refuted :
@@ -88,9 +85,9 @@ Theorem C13_result_exactly_once_refuted :
   (let s := rrun true [RSubmit 1; RTake; RDie] in results_of 1 s = 0%nat /\ r_lost s = [1]).
 Proof. exact result_exactly_once_threaded_refuted. Qed.
 
-(* non-vacuity: the patched adapter restores the stream on the refuting inputs *)
-Example C13_ws_fixed_on_witnesses :
-  read_all true 3 w_init [RMsg (MBinary [1; 2; 3]); RMsg (MBinary [4; 5])] 8 = Some [1; 2; 3; 4; 5] /\
-  read_all true 3 w_init [RMsg (MBinary [1; 2; 3]); RMsg (MBinary [4; 5; 6])] 4 = Some [1; 2; 3; 4; 5; 6] /\
-  read_all true 4 w_init [RMsg (MBinary [1; 2; 3; 4; 5; 6])] 4 = Some [1; 2; 3; 4; 5; 6].
-Proof. exact fixed_on_witnesses. Qed.
+(* the former D15 counterexamples (corpus/C13/ws.txt) on the repaired adapter *)
+Example C13_ws_former_counterexamples :
+  read_all 8 w_init [RMsg (MBinary [1; 2; 3]); RMsg (MBinary [4; 5])] 8 = Some [1; 2; 3; 4; 5] /\
+  read_all 8 w_init [RMsg (MBinary [1; 2; 3]); RMsg (MBinary [4; 5; 6])] 4 = Some [1; 2; 3; 4; 5; 6] /\
+  read_all 8 w_init [RMsg (MBinary [1; 2; 3; 4; 5; 6])] 4 = Some [1; 2; 3; 4; 5; 6].
+Proof. exact former_counterexamples. Qed.
